@@ -391,7 +391,7 @@ func execD(e *lp.Exec, rc *recvCase, lg *capLogger, f []string) {
 	seg := parseSpec(f[1])
 	rc.all = append(rc.all, seg...)
 	if rc.dead {
-		e.P("> D %s infl=", f[1])
+		e.P("> D %s infl= keys=", f[1])
 		e.P("dead")
 		return
 	}
@@ -405,7 +405,7 @@ func execD(e *lp.Exec, rc *recvCase, lg *capLogger, f []string) {
 	}
 	ec := errCode(err)
 	cache, ml := ep.ws.VerifCacheLen(), ep.ws.VerifMessageLen()
-	e.P("> D %s infl=%s", f[1], ep.inflAnn())
+	e.P("> D %s infl=%s keys=%s", f[1], ep.inflAnn(), keysOf(ep.writes))
 	if ec != 0 {
 		rc.dead, rc.err = true, ec
 		e.P("R err=%d cache=%d msglen=%d %s", ec, cache, ml, actsStr(ep.acts))
@@ -467,7 +467,7 @@ func execX(e *lp.Exec, rc *recvCase, f []string) {
 	ep.reset()
 	err := ep.ws.WriteMessage(websocket.MessageType(op), data)
 	ec := errCode(err)
-	e.P("> X %s %s defl=%s", f[1], f[2], ep.deflAnn())
+	e.P("> X %s %s defl=%s keys=%s", f[1], f[2], ep.deflAnn(), keysOf(ep.writes))
 	if ec != 0 {
 		e.P("X err=%d %s", ec, actsStr(ep.acts))
 	} else {
@@ -709,11 +709,12 @@ func (r *rtCase) execW(e *lp.Exec, lg *capLogger, f []string) {
 	back := bytes.Join(rwrites, nil)
 	bkeys := keysOf(rwrites)
 	snd.acts = nil
+	nw := len(snd.writes)
 	berr := 0
 	if len(back) > 0 {
 		berr = errCode(snd.ws.Parse(append([]byte{}, back...)))
 	}
-	e.P("> W %s %s %s keys=%s defl=%s cuts=%s infl=%s bkeys=%s", f[1], f[2], f[3], keys, defl, strings.Join(cs, ","), rcv.inflAnn(), bkeys)
+	e.P("> W %s %s %s keys=%s defl=%s cuts=%s infl=%s bkeys=%s rkeys=%s", f[1], f[2], f[3], keys, defl, strings.Join(cs, ","), rcv.inflAnn(), bkeys, keysOf(snd.writes[nw:]))
 	e.P("W werr=%d wire=%s recv=%s rerr=%d back=%s berr=%d", werr, short(wire), actsStr(racts), rerr, actsStr(snd.acts), berr)
 	if lg.panics > 0 {
 		e.Oracle("c12-roundtrip", "class=panic Parse recovered from a panic")
